@@ -15,7 +15,7 @@
 (*   "res":{"ok":true}|{"ok":false,"err":..}|{"ok":false,"panic":..},      *)
 (*   -- when ok: the patch as an independent reader sees it --             *)
 (*   "plen":bytes,"split":"ok"|"bad","hdr":[32 bytes],"zl":[c,d,e],        *)
-(*   "inflate":"ok"|"error",                                               *)
+(*   "inflate":"ok"|"error"|"disputed",                                    *)
 (*   short: "ctrl":[raw control bytes],"diff":[..],"extra":[..]            *)
 (*   long:  "ctrl_rem":r,"ctrl_big":b,"ctrl3":[[x,y,z]..],"dlen","elen"    *)
 (*   "outs":[{"by":[applier..],"ok":true,"len":n,"b":[..]|"md5":h}         *)
@@ -79,6 +79,9 @@ WellFormed(e) ==
   /\ HeaderOf(e.hdr).ctrl = e.zl[1] /\ HeaderOf(e.hdr).diff = e.zl[2]
   /\ 32 + e.zl[1] + e.zl[2] + e.zl[3] = e.plen
 
+\* the driver's inflater rejects a block that the library's zlib reads: a dispute between two inflaters - undecided
+Disputed(e) == e.split = "ok" /\ e.inflate = "disputed"
+
 AllChunked(e) == \A i \in 1..Len(e.cfgs) : e.cfgs[i][1] = "chunked"
 
 \* a non-zero seek that a later diff entry depends on
@@ -106,7 +109,8 @@ JudgeShort(e) ==
                            !.builder_panics = @ + (IF Has(e.res, "panic") THEN n ELSE 0)]]
   ELSE
   LET st1 == Produced(stats, e) IN
-  IF ~(WellFormed(e) /\ CtrlShapeOK(e.ctrl)) THEN [good |-> FALSE, dev |-> "", undec |-> FALSE, st |-> st1]
+  IF Disputed(e) THEN [good |-> TRUE, dev |-> "", undec |-> TRUE, st |-> st1]
+  ELSE IF ~(WellFormed(e) /\ CtrlShapeOK(e.ctrl)) THEN [good |-> FALSE, dev |-> "", undec |-> FALSE, st |-> st1]
   ELSE IF ~CtrlSmall(e.ctrl) THEN [good |-> TRUE, dev |-> "", undec |-> TRUE, st |-> st1]
   ELSE
   LET C == CtrlOf(e.ctrl) IN
@@ -145,7 +149,8 @@ JudgeLong(e) ==
                            !.builder_panics = @ + (IF Has(e.res, "panic") THEN n ELSE 0)]]
   ELSE
   LET st1 == [Produced(stats, e) EXCEPT !.long_records = @ + 1] IN
-  IF ~(WellFormed(e) /\ e.ctrl_rem = 0) THEN [good |-> FALSE, dev |-> "", undec |-> FALSE, st |-> st1]
+  IF Disputed(e) THEN [good |-> TRUE, dev |-> "", undec |-> TRUE, st |-> st1]
+  ELSE IF ~(WellFormed(e) /\ e.ctrl_rem = 0) THEN [good |-> FALSE, dev |-> "", undec |-> FALSE, st |-> st1]
   ELSE IF e.ctrl_big THEN [good |-> TRUE, dev |-> "", undec |-> TRUE, st |-> st1]
   ELSE
   LET C     == e.ctrl3
